@@ -1,47 +1,51 @@
 (* C17 — A bar queued after another always gets its turn.
    Statements over every event list accepted by Container.step; proofs in ContainerFlush.v
    and ContainerProofs.v.
-   KNOWN FINDING (D7, open, known_findings.json): the last sentence of the property does
-   not hold of the code.  [C17_late_successor_refuted] exhibits an accepted run in which
-   the predecessor had left before the successor was created, and
-   [C17_late_successor_never_displayed] proves that such a successor is never promoted in
-   any continuation (Wait then never returns: the bar is never started, never completes);
-   [C17_second_successor_overwrites] is the "however many bars" case: parking a second bar
-   behind the same predecessor drops the first from the queue.  The harness generates
-   successors only while the predecessor is running, one per predecessor, and the
-   directed D7 witnesses are replayed against the code by the check. *)
+   The pinned tree did not satisfy the last sentence of the property (D7a: a bar queued after a bar whose final
+   state was already flushed was parked for ever; D7b: a second bar queued after the same predecessor dropped the
+   first).  Both were reproduced against the code (corpus/C17_directed) and are repaired by the "fix:" commit
+   b0086b9 in /repo; the model below is the model of the repaired tree, and the two former refutation witnesses are
+   now the Examples at the end (the late bar is pushed at once, both successors are released). *)
 From MPB Require Import Base BaseProofs BarState Container ContainerProofs ContainerFlush.
 
 (* not displayed while parked: a parked bar is in none of the places rows are drawn from *)
 Theorem C17_successor_hidden_while_parked : forall p a d evs s pre x,
-  run (init_cst p a d) evs = Some s -> lookup pre (queue s) = Some x ->
+  run (init_cst p a d) evs = Some s -> In (pre, x) (queue s) ->
   ~ In x (heap s) /\ ~ In x (popped s) /\ ~ In x (fifo_pushes (fifo s)) /\ ~ In x (ph_pushes (ph s)) /\ ~ In x (retired s).
 Proof. exact successor_hidden. Qed.
 Print Assumptions C17_successor_hidden_while_parked.
 
 (* it stays parked until the flush of the predecessor's frame with shutdown = 1 (the frame after the one
-   that first showed the predecessor finished) *)
+   that first showed the predecessor finished); in particular no other bar queued after the same predecessor
+   disturbs it *)
 Theorem C17_parked_until_predecessor_last_frame : forall s e s' a x,
-  step s e = Some s' -> lookup a (queue s) = Some x ->
-  lookup a (queue s') = Some x \/
-  (exists nrows rmf np, e = CT_FLUSHBAR a 1 nrows rmf np false) \/
-  (exists b id prio tot ex rmf np tr xr xv, e = CT_ADD b id prio tot ex (Some a) rmf np tr xr xv).
+  step s e = Some s' -> In (a, x) (queue s) ->
+  In (a, x) (queue s') \/ (exists nrows rmf np, e = CT_FLUSHBAR a 1 nrows rmf np false).
 Proof. exact queue_stable. Qed.
 Print Assumptions C17_parked_until_predecessor_last_frame.
 
-(* that flush: the successor takes the predecessor's priority (its position), is pushed with a sync request
-   so that it is in the heap for the next frame, and the predecessor leaves for good *)
-Theorem C17_promotion : forall s b nrows rmf np s' qb,
+(* that flush: EVERY bar parked behind the predecessor, however many, takes the predecessor's priority (its position)
+   and is pushed with a sync request, in the order they were parked, so that it is in the heap for the next frame;
+   the predecessor leaves for good and its release is recorded with the priority it had *)
+Theorem C17_release_of_all_successors : forall pm am dm evs s b nrows rmf np s',
+  run (init_cst pm am dm) evs = Some s ->
   step s (CT_FLUSHBAR b 1 nrows rmf np false) = Some s' -> cycle_err s = false ->
-  lookup b (queue s) = Some qb ->
-  (exists wd ht rows n pc pushes rows' n',
-      ph s = Rendering wd ht rows n pc pushes /\
-      ph s' = Rendering wd ht rows' n' pc (pushes ++ [(qb, true)])) /\
-  prio_of s' qb = prio_of s b /\
-  lookup b (queue s') = None /\
-  In b (retired s').
-Proof. exact flush_promotes. Qed.
-Print Assumptions C17_promotion.
+  let qbs := successors b (queue s) in
+  (qbs <> [] ->
+     (exists wd ht rows n pc pushes rows' n',
+        ph s = Rendering wd ht rows n pc pushes /\
+        ph s' = Rendering wd ht rows' n' pc (pushes ++ map (fun qb => (qb, true)) qbs)) /\
+     In b (retired s')) /\
+  (forall qb, In qb qbs -> prio_of s' qb = prio_of s b) /\
+  successors b (queue s') = [] /\
+  lookup b (released s') = Some (prio_of s b).
+Proof. exact flush_releases_all. Qed.
+Print Assumptions C17_release_of_all_successors.
+
+(* [successors] is exactly the set of bars parked behind b *)
+Theorem C17_successors_are_the_parked_bars : forall b q x, In x (successors b q) <-> In (b, x) q.
+Proof. exact successors_In. Qed.
+Print Assumptions C17_successors_are_the_parked_bars.
 
 (* the predecessor is never drawn again *)
 Theorem C17_predecessor_gone : forall p a d evs s b sh nrows rmf np err,
@@ -49,20 +53,42 @@ Theorem C17_predecessor_gone : forall p a d evs s b sh nrows rmf np err,
 Proof. exact retired_never_flushed. Qed.
 Print Assumptions C17_predecessor_gone.
 
-(* ---- the part of the property that fails (D7) ---- *)
-Theorem C17_late_successor_never_displayed : forall p a d evs' evs s s' pre x,
-  run (init_cst p a d) evs = Some s -> lookup pre (queue s) = Some x -> In pre (retired s) ->
-  run s evs' = Some s' -> forallb (fun e => negb (parks_behind pre e)) evs' = true ->
-  lookup pre (queue s') = Some x /\ In pre (retired s').
-Proof. exact late_successor_stays_parked. Qed.
-Print Assumptions C17_late_successor_never_displayed.
+(* nobody waits behind a bar that has already been released: every parked bar still has its predecessor's release,
+   which pushes it, ahead of it *)
+Theorem C17_parked_only_behind_unreleased : forall p a d evs s pre x,
+  run (init_cst p a d) evs = Some s -> In (pre, x) (queue s) -> lookup pre (released s) = None.
+Proof. exact parked_behind_unreleased. Qed.
+Print Assumptions C17_parked_only_behind_unreleased.
 
-(* an accepted run that gets there: bar 0 (removed on completion) completes and leaves, then bar 1 is
-   created to queue after it *)
-Theorem C17_late_successor_refuted :
-  exists evs s, run (init_cst false true false) evs = Some s /\ lookup 0 (queue s) = Some 1 /\ In 0 (retired s).
-Proof.
-  exists
+(* whether or not the predecessor had finished: a bar queued after a bar that is not released yet is parked behind it,
+   after the bars already parked there ... *)
+Theorem C17_early_successor_parked : forall s b id prio tot ex a rmf np tr xr xv s',
+  step s (CT_ADD b id prio tot ex (Some a) rmf np tr xr xv) = Some s' -> lookup a (released s) = None ->
+  queue s' = queue s ++ [(a, b)] /\ replace_last_op (fifo s) [] = Some (fifo s') /\ heap s' = heap s.
+Proof. exact early_successor_parked. Qed.
+Print Assumptions C17_early_successor_parked.
+
+(* ... and a bar queued after a released bar is not parked at all: the same closure sends its push request (with sync),
+   and it takes the priority the predecessor had when it was released *)
+Theorem C17_late_successor_pushed_at_once : forall s b id prio tot ex a rmf np tr xr xv pa s',
+  step s (CT_ADD b id prio tot ex (Some a) rmf np tr xr xv) = Some s' -> lookup a (released s) = Some pa ->
+  replace_last_op (fifo s) [QPush b true] = Some (fifo s') /\ prio_of s' b = pa /\ queue s' = queue s /\
+  released s' = released s.
+Proof. exact late_successor_pushed_at_once. Qed.
+Print Assumptions C17_late_successor_pushed_at_once.
+
+(* the record of a release does not change afterwards *)
+Theorem C17_release_recorded_for_good : forall s e s' a pa,
+  step s e = Some s' -> lookup a (released s) = Some pa ->
+  lookup a (released s') = Some pa \/ (exists nrows rmf np, e = CT_FLUSHBAR a 1 nrows rmf np false).
+Proof. exact released_stable. Qed.
+Print Assumptions C17_release_recorded_for_good.
+
+(* ---- the two histories that failed on the pinned tree (D7), now accepted with the right outcome ---- *)
+(* bar 0 (removed on completion) completes and leaves, then bar 1 is created to queue after it: its push is in flight,
+   nothing is parked, and it has bar 0's priority *)
+Example C17_late_successor_gets_its_turn :
+  exists s, run (init_cst false true false)
     [CT_OP; CT_ADD 0 0 0 2 None None true false true 0 false; HM_PUSH 0 true 0 false 0;
      CL_OP 0 (IncrInt64 2); BAR_OP 0 2 2 0 true false true 0;
      CT_RENDERBEGIN; HM_SYNC 1 true 0; HM_ITERREQ true 1; CT_RENDERSIZE 80 24;
@@ -72,29 +98,16 @@ Proof.
      CT_RENDERBEGIN; HM_SYNC 1 false 1; HM_ITERREQ true 1; CT_RENDERSIZE 80 24;
      BAR_RENDER 0 2 2 0 false true 1; BAR_OP 0 2 2 0 true false true 2; HM_POP 0 0;
      CT_FLUSHBAR 0 1 1 true false false; CT_FRAME 1 0; OUT [ICuu 1; IRow 0 2 2 true false];
-     CT_OP; CT_ADD 1 1 1 3 None (Some 0) false false true 0 false].
-  eexists. vm_compute. repeat split. left; reflexivity.
-Qed.
-Print Assumptions C17_late_successor_refuted.
+     CT_OP; CT_ADD 1 1 1 3 None (Some 0) false false true 0 false] = Some s
+  /\ queue s = [] /\ fifo s = [QPush 1 true] /\ prio_of s 1 = 0 /\ In 0 (retired s).
+Proof. eexists. vm_compute. repeat split. left; reflexivity. Qed.
 
-(* a second bar parked behind the same predecessor replaces the first in the queue *)
-Theorem C17_second_successor_overwrites :
-  exists evs s, run (init_cst false true false) evs = Some s /\ lookup 0 (queue s) = Some 2 /\
-                lookup 1 (bars s) <> None /\ ~ In 1 (places s).
-Proof.
-  exists
-    [CT_OP; CT_ADD 0 0 0 2 None None false false true 0 false; HM_PUSH 0 true 0 false 0;
-     CT_OP; CT_ADD 1 1 1 3 None (Some 0) false false true 0 false;
-     CT_OP; CT_ADD 2 2 2 3 None (Some 0) false false true 0 false].
-  eexists. vm_compute. repeat split; [discriminate|]. intros [H|[H|H]]; try discriminate H; exact H.
-Qed.
-Print Assumptions C17_second_successor_overwrites.
-
-(* non-vacuity of the promotion theorem: a successor created in time is promoted *)
-Example C17_nonvacuous :
+(* two bars queued after bar 0: both are released by bar 0's second terminal frame, in order, with its priority *)
+Example C17_both_successors_get_their_turn :
   exists s, run (init_cst false true false)
     [CT_OP; CT_ADD 0 0 0 2 None None false false true 0 false; HM_PUSH 0 true 0 false 0;
      CT_OP; CT_ADD 1 1 1 3 None (Some 0) false false true 0 false;
+     CT_OP; CT_ADD 2 2 2 3 None (Some 0) false false true 0 false;
      CL_OP 0 (IncrInt64 2); BAR_OP 0 2 2 0 true false false 0;
      CT_RENDERBEGIN; HM_SYNC 1 true 0; HM_ITERREQ true 1; CT_RENDERSIZE 80 24;
      BAR_RENDER 0 2 2 0 false true 0; BAR_OP 0 2 2 0 true false false 1; HM_POP 0 0;
@@ -103,6 +116,16 @@ Example C17_nonvacuous :
      CT_RENDERBEGIN; HM_SYNC 1 false 1; HM_ITERREQ true 1; CT_RENDERSIZE 80 24;
      BAR_RENDER 0 2 2 0 false true 1; BAR_OP 0 2 2 0 true false false 2; HM_POP 0 0;
      CT_FLUSHBAR 0 1 1 false false false; CT_FRAME 1 0; OUT [ICuu 1; IRow 0 2 2 true false];
-     HM_PUSH 1 true 0 false 1] = Some s
-  /\ heap s = [1] /\ queue s = [] /\ retired s = [0] /\ prio_of s 1 = 0.
+     HM_PUSH 1 true 0 false 1; HM_PUSH 2 true 1 true 1] = Some s
+  /\ heap s = [2; 1] /\ queue s = [] /\ retired s = [0] /\ prio_of s 1 = 0 /\ prio_of s 2 = 0
+  /\ lookup 0 (released s) = Some 0.
+Proof. eexists. vm_compute. repeat split. Qed.
+
+(* in between, both are parked, in order, and hidden *)
+Example C17_two_parked :
+  exists s, run (init_cst false true false)
+    [CT_OP; CT_ADD 0 0 0 2 None None false false true 0 false; HM_PUSH 0 true 0 false 0;
+     CT_OP; CT_ADD 1 1 1 3 None (Some 0) false false true 0 false;
+     CT_OP; CT_ADD 2 2 2 3 None (Some 0) false false true 0 false] = Some s
+  /\ queue s = [(0, 1); (0, 2)] /\ successors 0 (queue s) = [1; 2] /\ heap s = [0].
 Proof. eexists. vm_compute. repeat split. Qed.
